@@ -216,6 +216,11 @@ def run(ck, prog, ctx):
         else:
             ck.ob("SELECT", "matrix/" + name, bool(hit_good) and not hit_bad, "Matrix::%s builds %s" % (name, ", ".join(c.rsplit("::", 2)[-2] + "::" + c.rsplit("::", 1)[-1] for c in (hit_bad or hit_good))), where=b.where())
 
+    # ------------------------------------------------------------------ PARALLEL: side-by-side vectors (a cache kept as keys + values) stay aligned
+    from engines import check_parallel_vectors
+    ck.rule("PARALLEL", "two Vec fields of one struct that a method edits together are edited at the same position")
+    ck.extra["side-by-side vector edits examined"] = check_parallel_vectors(ck, "PARALLEL", prog, [b for b in prog.production() if (b.file or "").startswith(("src/similarity", "src/matrix"))])
+
     # ------------------------------------------------------------------ ROLE: matrix construction and fill in GroupSimilarity::calculate
     gs = prog.body("similarity::GroupSimilarity::<T, C>::calculate")
     if ck.anchor("ROLE", "GroupSimilarity::calculate", gs):
